@@ -275,6 +275,19 @@ pub fn confine(_tier: Tier, w: &Arc<World>) -> Scn {
     if spelling == 2 {
         std::env::set_current_dir(served.join("sub")).expect("chdir into the sandbox");
     }
+    if spelling == 1 {
+        // relative directories are relative to the working directory, not to -d: below whatever -d names
+        // sits a decoy tree with the same relative layout
+        let base = crate::common::process_base();
+        let anchor = if distinct && layout == 1 { recvd.clone() } else { served.clone() };
+        for (dir, file, salt) in [(&served, "pub.txt", 141u64), (&recvd, "old.txt", 142)] {
+            if let Ok(rel) = dir.strip_prefix(&base) {
+                let decoy = anchor.join(rel);
+                let _ = std::fs::create_dir_all(&decoy);
+                let _ = std::fs::write(decoy.join(file), content(333, salt));
+            }
+        }
+    }
     let spell = |p: &std::path::Path| -> std::path::PathBuf {
         match spelling {
             1 => p.strip_prefix(crate::common::process_base()).map(|x| x.to_path_buf()).unwrap_or_else(|_| p.to_path_buf()),
@@ -466,7 +479,12 @@ pub fn options(_tier: Tier, w: &Arc<World>) -> Scn {
                 1
             }
         } else if expect_oack {
-            2
+            // either the acknowledgement of the OACK never comes, or the one of the first block
+            if d.chance("swarm.silent.at_oack", 1, 2) {
+                1
+            } else {
+                2
+            }
         } else {
             1
         };
@@ -594,7 +612,9 @@ pub fn hostile(_tier: Tier, w: &Arc<World>) -> Scn {
         return Scn { sandbox, desc, step_cap: 2_000_000, time_cap: 100_000_000 * SEC, faultfree: true };
     }
     let nsrc = 1 + d.range("swarm.sources", 3) as usize;
-    let ndg = 1 + d.range("swarm.hostile.count", 12) as usize;
+    // now and then a long run of datagrams (hundreds in a row, nothing valid in between)
+    let flood = d.chance("swarm.hostile.flood", 1, 60);
+    let ndg = if flood { 120 + d.range("swarm.hostile.flood.count", 200) as usize } else { 1 + d.range("swarm.hostile.count", 12) as usize };
     let mut scripts: Vec<Vec<(Ns, Target, Vec<u8>)>> = vec![vec![]; nsrc];
     let mut sample = vec![];
     for i in 0..ndg {
@@ -603,7 +623,7 @@ pub fn hostile(_tier: Tier, w: &Arc<World>) -> Scn {
             sample.push(rfc::summary(&bytes));
         }
         let src = d.range("hostile.source", nsrc as u32) as usize;
-        let at = 10 * MS + i as Ns * d.pick("hostile.spacing", &[SEC, MS, 100 * SEC, 10 * SEC]);
+        let at = 10 * MS + i as Ns * if flood { MS } else { d.pick("hostile.spacing", &[SEC, MS, 100 * SEC, 10 * SEC]) };
         scripts[src].push((at, Target::Addr(srv.addr()), bytes));
     }
     let horizon = 10 * MS + ndg as Ns * 100 * SEC;
